@@ -10,7 +10,6 @@ import Poupool.Model.Glue
 -/
 namespace Poupool.Compose
 open Poupool
-open Poupool.Glue (lastMaster lastMaster_append lastMaster_none_of_noMaster)
 
 /-- the master's knowledge in state `s`: "X is halted" -/
 def CSpec.G (S : CSpec) (s : St) : Bool := S.isG (getNth s.vars S.v)
@@ -49,8 +48,7 @@ theorem creach_m (S : CSpec) {g : CSt} (h : CReach S g) : Reach S.DM g.m := by
       | mBegin msg m' effs hidle hmsg h => exact Reach.step msg ih hmsg (stepE_sound h)
       | mTell => exact ih
       | mEmit => exact ih
-      | mAskTrue => exact ih
-      | mAskFalse => exact ih
+      | mAsk => exact ih
       | other => exact ih
       | deliver => exact ih
 
@@ -63,8 +61,7 @@ theorem creach_x (S : CSpec) {g : CSt} (h : CReach S g) : Reach S.DX g.x := by
       | mBegin => exact ih
       | mTell => exact ih
       | mEmit => exact ih
-      | mAskTrue => exact ih
-      | mAskFalse => exact ih
+      | mAsk => exact ih
       | other => exact ih
       | deliver e rest x' h hm hs =>
           by_cases hc : e.1 = false ∧ S.isStart e.2 = true
@@ -79,13 +76,44 @@ theorem creach_x (S : CSpec) {g : CSt} (h : CReach S g) : Reach S.DX g.x := by
           · rw [if_neg hc] at hs
             exact Reach.step e.2 ih hm hs
 
-/-- "the last thing the master did towards X is a halt-class tell still waiting, or nothing of the master waits
-    and X is halted" – under the abstract knowledge bit `a` -/
+/-- what the slave's inbox will do to "X is halted" (`h`), as far as the MASTER's messages are concerned: a
+    halt-class message establishes it, a start message destroys it, anything else keeps it -/
+def upd (S : CSpec) (h : Bool) (e : Bool × Msg) : Bool :=
+  if e.1 then (if S.isHaltMsg e.2 then true else if S.isStart e.2 then false else h) else h
+
+def settle (S : CSpec) (h : Bool) (inbox : List (Bool × Msg)) : Bool := inbox.foldl (upd S) h
+
+theorem settle_append (S : CSpec) (h : Bool) (l : List (Bool × Msg)) (e : Bool × Msg) :
+    settle S h (l ++ [e]) = upd S (settle S h l) e := by
+  simp [settle, List.foldl_append]
+
+theorem settle_noMaster (S : CSpec) (h : Bool) {l : List (Bool × Msg)} (hn : noMaster l) : settle S h l = h := by
+  induction l generalizing h with
+  | nil => rfl
+  | cons e rest ih =>
+      have he : e.1 = false := hn e (by simp)
+      have hr : noMaster rest := fun e' he' => hn e' (by simp [he'])
+      simp only [settle, List.foldl_cons, upd, he, Bool.false_eq_true, if_false]
+      exact ih h hr
+
+theorem upd_mono (S : CSpec) {h h' : Bool} (hh : h = true → h' = true) (e : Bool × Msg) :
+    upd S h e = true → upd S h' e = true := by
+  simp only [upd]
+  cases e.1 <;> cases S.isHaltMsg e.2 <;> cases S.isStart e.2 <;> simp <;> exact hh
+
+theorem settle_mono (S : CSpec) (l : List (Bool × Msg)) : ∀ {h h' : Bool}, (h = true → h' = true) →
+    settle S h l = true → settle S h' l = true := by
+  induction l with
+  | nil => intro h h' hh; simpa [settle] using hh
+  | cons e rest ih =>
+      intro h h' hh
+      simp only [settle, List.foldl_cons]
+      exact ih (upd_mono S hh e)
+
+/-- under the abstract knowledge bit `a`: once X has served what is in its inbox now, it is halted (in
+    particular: if nothing of the master waits, it is halted now) -/
 def K (S : CSpec) (a : Bool) (inbox : List (Bool × Msg)) (x : St) : Prop :=
-  a = true →
-    match lastMaster inbox with
-    | some m => S.isHaltMsg m = true
-    | none => S.isHalt x = true
+  a = true → settle S (S.isHalt x) inbox = true
 
 theorem K_false (S : CSpec) (inbox : List (Bool × Msg)) (x : St) : K S false inbox x := by
   intro h; cases h
@@ -115,8 +143,15 @@ theorem inv_of_creach (S : CSpec) (mok : MasterOK S) (sok : SlaveOK S) {g : CSt}
           refine ⟨hv, hal, ghost1 S a (.emit t), ?_, ?_⟩
           · intro ha
             simp only [ghost1, ht] at ha
-            simp only [lastMaster_append, if_true]
-            exact ha
+            simp only [settle_append, upd, if_true]
+            cases hh : S.isHaltMsg msg with
+            | true => rfl
+            | false =>
+                cases hst : S.isStart msg with
+                | true => simp [hh, hst] at ha
+                | false =>
+                    simp only [hh, hst, Bool.false_eq_true, if_false] at ha ⊢
+                    exact hK ha
           · intro hg
             have := hT hg
             simpa [h, ghostAfter] using this
@@ -126,21 +161,15 @@ theorem inv_of_creach (S : CSpec) (mok : MasterOK S) (sok : SlaveOK S) {g : CSt}
           · intro hg
             have := hT hg
             simpa [h, ghostAfter] using this
-      | mAskTrue t f rest h hq =>
-          refine ⟨hv, hal, ghost1 S a (.ask true t f), ?_, ?_⟩
+      | mAsk ans t f rest h hq =>
+          refine ⟨hv, hal, ghost1 S a (.ask ans t f), ?_, ?_⟩
           · intro ha
             simp only [ghost1, Bool.or_eq_true] at ha
             rcases ha with ha | ha
             · exact hK ha
             · obtain ⟨h1, h2⟩ := hq ha
-              simp only [lastMaster_none_of_noMaster h1]
+              rw [settle_noMaster S _ h1]
               exact h2
-          · intro hg
-            have := hT hg
-            simpa [h, ghostAfter] using this
-      | mAskFalse t f rest h =>
-          refine ⟨hv, hal, ghost1 S a (.ask false t f), ?_, ?_⟩
-          · simpa only [ghost1] using hK
           · intro hg
             have := hT hg
             simpa [h, ghostAfter] using this
@@ -148,8 +177,7 @@ theorem inv_of_creach (S : CSpec) (mok : MasterOK S) (sok : SlaveOK S) {g : CSt}
           refine ⟨hv, hal, a, ?_, hT⟩
           intro ha
           have := hK ha
-          simp only [lastMaster_append, Bool.false_eq_true, if_false]
-          exact this
+          simpa only [settle_append, upd, Bool.false_eq_true, if_false] using this
       | deliver e rest x' hin hm hs =>
           obtain ⟨b, m⟩ := e
           simp only at hs hm
@@ -157,16 +185,25 @@ theorem inv_of_creach (S : CSpec) (mok : MasterOK S) (sok : SlaveOK S) {g : CSt}
           have served : x' ∈ step S.DX g.x m → (b = false → S.isStart m = false) → K S a rest x' := by
             intro hstep hns ha
             have hI := hK ha
-            simp only [hin, lastMaster] at hI
-            cases hlr : lastMaster rest with
-            | some m' => simpa only [hlr] using hI
-            | none =>
-                simp only [hlr] at hI ⊢
-                cases b with
-                | true => exact sok.h1 _ _ _ hx hI hstep
+            simp only [hin, settle, List.foldl_cons] at hI
+            refine settle_mono S rest ?_ hI
+            simp only [upd]
+            cases b with
+            | true =>
+                simp only [if_true]
+                cases hh : S.isHaltMsg m with
+                | true => intro _; exact sok.h1 _ _ _ hx hh hstep
                 | false =>
-                    simp only [Bool.false_eq_true, if_false] at hI
-                    exact sok.h2 _ _ _ hx hI hm (hns rfl) hstep
+                    cases hst : S.isStart m with
+                    | true => simp
+                    | false =>
+                        simp only [Bool.false_eq_true, if_false]
+                        intro hxh
+                        exact sok.h2 _ _ _ hx hxh hm hst hstep
+            | false =>
+                simp only [Bool.false_eq_true, if_false]
+                intro hxh
+                exact sok.h2 _ _ _ hx hxh hm (hns rfl) hstep
           by_cases hc : b = false ∧ S.isStart m = true
           · rw [if_pos hc] at hs
             obtain ⟨hidle, hs⟩ := hs
@@ -179,11 +216,8 @@ theorem inv_of_creach (S : CSpec) (mok : MasterOK S) (sok : SlaveOK S) {g : CSt}
               refine ⟨hv, hal, a, ?_, hT⟩
               intro ha
               have hI := hK ha
-              simp only [hin, lastMaster] at hI
-              simp only [hs]
-              cases hlr : lastMaster rest with
-              | some m' => simpa only [hlr] using hI
-              | none => simpa only [hlr, Bool.false_eq_true, if_false] using hI
+              simp only [hin, settle, List.foldl_cons, upd, Bool.false_eq_true, if_false] at hI
+              simpa only [hs, settle] using hI
             · -- the master claims nothing
               exact ⟨hv, hal, false, K_false S _ _, fun hg' => absurd hg' hg⟩
           · rw [if_neg hc] at hs
@@ -193,15 +227,22 @@ theorem inv_of_creach (S : CSpec) (mok : MasterOK S) (sok : SlaveOK S) {g : CSt}
             | false => rfl
             | true => exact absurd ⟨hb, hst⟩ hc
 
+/-- In every reachable composed state with the master between two handlers and knowing "X halted": once X has
+    served the messages now in its inbox (whatever third parties add meanwhile is covered by applying this again
+    later), X is halted. -/
+theorem will_be_halted (S : CSpec) (mok : MasterOK S) (sok : SlaveOK S) {g : CSt} (h : CReach S g)
+    (hidle : g.todo = []) (hg : S.isG (getNth g.m.vars S.v) = true) : settle S (S.isHalt g.x) g.inbox = true := by
+  obtain ⟨_, _, a, hK, hT⟩ := inv_of_creach S mok sok h
+  have ha : a = true := by simpa [hidle, ghostAfter] using hT hg
+  exact hK ha
+
 /-- **Composition theorem.** In every reachable state of (generated master ∥ generated slave), for every
     interleaving: if the master is between two handlers, its ghost variable says "X halted" and none of the
     master's messages is still waiting in X's inbox, then X is halted. -/
 theorem halted_when_served (S : CSpec) (mok : MasterOK S) (sok : SlaveOK S) {g : CSt} (h : CReach S g)
     (hidle : g.todo = []) (hg : S.isG (getNth g.m.vars S.v) = true) (hserved : noMaster g.inbox) :
     S.isHalt g.x = true := by
-  obtain ⟨_, _, a, hK, hT⟩ := inv_of_creach S mok sok h
-  have ha : a = true := by simpa [hidle, ghostAfter] using hT hg
-  have := hK ha
-  simpa only [lastMaster_none_of_noMaster hserved] using this
+  have := will_be_halted S mok sok h hidle hg
+  rwa [settle_noMaster S _ hserved] at this
 
 end Poupool.Compose
